@@ -723,16 +723,13 @@ func (s *Session) Stop() (err error) {
 	// is registered, so that the peer's answer still reaches it.
 	s.eventHandler.Clean()
 
-	err = s.Logout()
-	if err != nil {
-		return fmt.Errorf("sendWithErrorCheck logout request: %w", err)
-	}
-
 	// LogonSettings is replaced under s.mu when a Logon is processed.
 	s.mu.Lock()
 	closeTimeout := s.LogonSettings.CloseTimeout
 	s.mu.Unlock()
 
+	// The deadline and the logout callback are in place before the Logout is
+	// sent: a peer that answers at once must not slip in between.
 	delayTimer := time.AfterFunc(closeTimeout, func() {
 		s.cancel()
 	})
@@ -743,6 +740,11 @@ func (s *Session) Stop() (err error) {
 
 		return true
 	})
+
+	err = s.Logout()
+	if err != nil {
+		return fmt.Errorf("sendWithErrorCheck logout request: %w", err)
+	}
 
 	return nil
 }
